@@ -93,6 +93,19 @@ def _symbolic_format(obj, format_spec=""):
     with NoTracing():
         is_sym = isinstance(obj, _SymbolicInt)
         m = _HEX_SPEC.fullmatch(format_spec) if isinstance(format_spec, str) else None
+        # an ordinary (pure Python) object with its own __format__/__str__, e.g. a path stand-in or an error object:
+        # CrossHair would deep_realize it (and with it every symbolic string it holds) -> call its methods traced instead
+        own = None
+        if not is_sym and not type(obj).__module__.startswith(("crosshair", "builtins")) and format_spec == "":
+            f = getattr(type(obj), "__format__", None)
+            s = getattr(type(obj), "__str__", None)
+            if f is not None and f is not object.__format__ and hasattr(f, "__code__"):
+                own = f
+            elif s is not None and s is not object.__str__ and hasattr(s, "__code__") and (
+                    f is object.__format__ or f is None):
+                own = s
+    if own is not None:
+        return own(obj, "") if own.__name__ == "__format__" else own(obj)
     if not (is_sym and m is not None and m.group(3) in ("x", "o")):
         return _orig_format_patch(obj, format_spec)
     base = 16 if m.group(3) == "x" else 8
